@@ -41,8 +41,8 @@ func c09Catalogue() map[string]map[string][]*target.Target {
 		large[job] = append(large[job], c09T(uint64(1000+i), fmt.Sprintf("host-%d:9100", i), "", labels.Label{Name: "idx", Value: fmt.Sprint(i)}))
 	}
 	return map[string]map[string][]*target.Target{
-		"a-empty":    {},
-		"b-one":      {"j1": {c09T(1, "a:1", "")}},
+		"a-empty": {},
+		"b-one":   {"j1": {c09T(1, "a:1", "")}},
 		"b2-one-relabelled": {"j1": {func() *target.Target {
 			t := c09T(1, "a:1", "", labels.Label{Name: "zone", Value: "changed"})
 			t.Series, t.TotalSeries = 777, 888
